@@ -95,6 +95,7 @@ type interpreter struct {
 	intrSeen           map[string]bool
 	inited             map[*ssa.Package]bool
 	forceInit          *ssa.Function // the dependency initialiser initDependency is about to run
+	depth              int           // current call depth of the interpreted program
 	extGlobals         map[*ssa.Global]*value
 	curFrame           *frame
 	curInstr           ssa.Instruction
@@ -535,6 +536,13 @@ func callSSA(i *interpreter, caller *frame, callpos token.Pos, fn *ssa.Function,
 	if r, handled := i.callIntrinsic(fr, fn, args); handled {
 		return r
 	}
+	// unbounded recursion ends a Go program with "fatal error: stack overflow", which no recover
+	// can intercept; the bound stands for the 1 GB stack (frames of the code under test are small)
+	i.depth++
+	defer func() { i.depth-- }()
+	if i.depth > maxCallDepth {
+		panic(fatalError{"fatal error: stack overflow (call depth > " + fmt.Sprint(maxCallDepth) + " in " + fn.String() + ")"})
+	}
 	if fn.Blocks == nil {
 		panic(unsupported{"no code for function: " + fn.String()})
 	}
@@ -594,8 +602,8 @@ func runFrame(fr *frame) {
 		fr.panicking = true
 		fr.panic = recover()
 		switch fr.panic.(type) {
-		case pathEnd, unsupported, exitPanic:
-			panic(fr.panic) // engine control flow: never visible to the target
+		case pathEnd, unsupported, exitPanic, fatalError:
+			panic(fr.panic) // engine control flow / fatal runtime errors: never visible to the target
 		}
 		if fr.i.ps.panicSite == "" {
 			fr.i.ps.panicSite = fr.fn.String()
@@ -700,3 +708,9 @@ func doRecover(caller *frame) value {
 	}
 	return iface{}
 }
+
+// maxCallDepth bounds the recursion depth of the interpreted program.
+const maxCallDepth = 2000
+
+// fatalError is a runtime failure that ends the process and cannot be recovered (stack overflow).
+type fatalError struct{ msg string }
